@@ -2,7 +2,7 @@
 //! For each sampled (configuration, pre-state, operation): count the calls N the fault-free run makes into the
 //! wrapped filesystems, then for EVERY k = 1..N rebuild the pre-state, make the k-th call fail, and compare.
 
-use crate::cfg::{build, Built, Cfg, Role};
+use crate::cfg::{build, Built, Cfg};
 use crate::gen::{gen_op, Domain, Universe};
 use crate::json::J;
 use crate::model::Model;
@@ -20,7 +20,8 @@ fn cfgs(rng: &mut Rng) -> Cfg {
         0 => Cfg::Mem,
         1 => Cfg::Phys,
         2 | 3 => Cfg::Alt(Box::new(Cfg::Mem), "/__alt/p".into()),
-        4 | 5 => Cfg::Ovl(vec![(Cfg::Mem, "".into()), (Cfg::Mem, "/__lay1".into())]),
+        4 => Cfg::Ovl(vec![(Cfg::Mem, "".into()), (Cfg::Mem, "/__lay1".into())]),
+        5 => Cfg::OvlShared(Box::new(Cfg::Mem), 2),
         6 => Cfg::Ovl(vec![(Cfg::Mem, "/__lay0".into()), (Cfg::Mem, "".into()), (Cfg::Mem, "".into())]),
         7 => Cfg::Alt(Box::new(Cfg::Ovl(vec![(Cfg::Mem, "".into()), (Cfg::Mem, "".into())])), "/__alt".into()),
         8 => Cfg::Ovl(vec![(Cfg::Alt(Box::new(Cfg::Mem), "/__alt/p".into()), "".into()), (Cfg::Phys, "".into())]),
@@ -43,30 +44,6 @@ fn make_state(c: &Case) -> Option<Built> {
         let _ = exec(&b.root, op);
     }
     Some(b)
-}
-
-fn lower_ids(b: &Built) -> BTreeSet<usize> {
-    let mut lower = BTreeSet::new();
-    for n in &b.nodes {
-        if let Role::Layer { idx, .. } = &n.role {
-            if *idx >= 1 {
-                lower.insert(n.id);
-            }
-        }
-    }
-    loop {
-        let mut changed = false;
-        for n in &b.nodes {
-            if let Role::AltUnder { of, .. } | Role::Layer { of, .. } = &n.role {
-                if lower.contains(of) && lower.insert(n.id) {
-                    changed = true;
-                }
-            }
-        }
-        if !changed {
-            return lower;
-        }
-    }
 }
 
 fn value_equal(a: &Out, b: &Out) -> bool {
@@ -164,7 +141,7 @@ pub fn run_case(a: &Args, tag: &'static str, idx: u64, handle_dim: bool, acc: &m
                 return;
             }
         };
-        let lowers = lower_ids(&b);
+        let lowers = b.lower_regions();
         b.ctl.start_recording();
         if handle_dim {
             b.ctl.arm(0, usize::MAX);
@@ -182,12 +159,12 @@ pub fn run_case(a: &Args, tag: &'static str, idx: u64, handle_dim: bool, acc: &m
         acc.steps += 1;
         acc.count("injected_runs", 1);
         let failed = events.iter().find(|e| e.injected);
-        let fsig = failed.map(|e| format!("{}@{}", e.method, if lowers.contains(&e.node) { "lower".to_string() } else { format!("{}{}", b.nodes[e.node].kind, if e.node == 0 { "(top)" } else { "" }) })).unwrap_or_else(|| "handle-io".into());
+        let fsig = failed.map(|e| format!("{}@{}", e.method, if crate::cfg::event_in_regions(e, &lowers) { "lower".to_string() } else { format!("{}{}", b.nodes[e.node].kind, if e.node == 0 { "(top)" } else { "" }) })).unwrap_or_else(|| "handle-io".into());
         acc.fingerprints.insert(Rng::derive(k, &format!("{}|{}|{}|{}", op.name(), clsig, cfg.shape(), fsig), 0).0);
         let order = idx * 1000 + k;
         let after = snapshot(&b.root, &probe, 4096).tree();
         // never modifies a lower layer, success or not
-        if let Some(e) = events.iter().find(|e| e.is_mutating() && lowers.contains(&e.node)) {
+        if let Some(e) = events.iter().find(|e| e.is_mutating() && crate::cfg::event_in_regions(e, &lowers)) {
             acc.violate(Violation { property: "C20", signature: format!("lower-mutated-under-fault|{}|{}|{}|{}", op.name(), clsig, fsig, cfg.family()), summary: format!("with {} failing, {} issued {} on a lower layer", fsig, op.render(), e.render()), detail: mk(k, dim, J::arr(events.iter().take(60).map(|e| J::s(e.render())))), order });
         }
         match &res {
